@@ -432,7 +432,28 @@ class Facts:
         for b in self.code_bodies():
             if b.cdef == root_cdef or b.cdef.startswith(root_cdef + "::{closure"):
                 out.append(b)
+        # closures defined in helpers that were spliced into this function run as part of it
+        extra = set()
+        for b in out:
+            for blk in b.blocks:
+                for d in blk.get("ctx", ()) or ():
+                    extra.add(self.root_of_name(d))
+        extra.discard(root_cdef)
+        if extra:
+            have = {b.def_ for b in out}
+            for b in self.code_bodies():
+                if b.def_ in have:
+                    continue
+                for r in extra:
+                    if b.cdef.startswith(r + "::{closure"):
+                        out.append(b)
+                        break
         return out
+
+    def root_of_name(self, d):
+        d = canon(d)
+        i = d.find("::{closure")
+        return d if i < 0 else d[:i]
 
     def root_of(self, body):
         d = body.cdef
